@@ -207,7 +207,8 @@ def run(ctx):
 
         conds = enclosing_conditions(os_calls[0], open_path)
         rets_p = [r for r in walk_no_nested(open_path) if isinstance(r, ast.Return) and r.value is not None]
-        fp_name = norm(rets_p[-1].value) if rets_p else "fp"
+        plain = [norm(r.value) for r in rets_p if isinstance(r.value, ast.Name)]
+        fp_name = norm(os_calls[0].args[0]) if os_calls[0].args and isinstance(os_calls[0].args[0], ast.Name) else (plain[-1] if plain else "fp")
         mode_p = func_params(open_path)[1]
         bin_name = next((st.targets[0].id for st in walk_no_nested(open_path) if isinstance(st, ast.Assign) and isinstance(st.targets[0], ast.Name) and isinstance(st.value, ast.Compare)
                          and isinstance(st.value.ops[0], ast.In) and isinstance(st.value.left, ast.Constant) and st.value.left.value == "b" and norm(st.value.comparators[0]) == mode_p), "binary")
